@@ -244,7 +244,7 @@ def reverse_jobs(rnd, n, schedulers=('default', 'legacy'), **job_kw):
 
 
 def catalogue_model_runs(d, tier, liveness_for=('diamond_j-1_ok', 'nested_join_inner_uncreated_err', 'diamond_j1_ok'),
-                         ops=0, dups=0, kinds=('pause', 'resume', 'stop'), only=None, tag=''):
+                         ops=0, dups=0, kinds=('pause', 'resume', 'stop'), only=None, tag='', schedulers=None):
     """Exhaustive TLC runs of MistralEngine on catalogue shapes (all delivery orders of messages,
     post-commit operations and job sub-steps; with `ops` operator commands of the given kinds issued at any
     point and `dups` redeliveries of any delivered message), liveness (Terminates under weak fairness) on a few."""
@@ -253,10 +253,16 @@ def catalogue_model_runs(d, tier, liveness_for=('diamond_j-1_ok', 'nested_join_i
     shapes = [x for x in gen.catalogue() if only is None or x[0] in only]
     out = []
 
+    # both scheduler implementations without budgets (and in the thorough tier); the default scheduler under budgets
+    if schedulers is None:
+        schedulers = ('default', 'legacy') if (tier == 'thorough' or (not ops and not dups)) else ('default',)
+
     def one(item):
         nm, P = item
-        r = engmodel.model_check(d, nm + tag, P.abstract(), liveness=False, ops=ops, dups=dups, kinds=kinds)
-        res = [('MistralEngine/%s%s ops=%d%s dups=%d' % (nm, tag, ops, '(%s)' % ','.join(kinds) if ops else '', dups), r)]
+        res = []
+        for sch in schedulers:
+            r = engmodel.model_check(d, nm + tag + ('_' + sch[0]), P.abstract(), liveness=False, ops=ops, dups=dups, kinds=kinds, scheduler=sch)
+            res.append(('MistralEngine/%s%s %s scheduler ops=%d%s dups=%d' % (nm, tag, sch, ops, '(%s)' % ','.join(kinds) if ops else '', dups), r))
         if nm in liveness_for and not ops and not dups:
             res.append(('MistralEngine/%s/liveness' % nm, engmodel.model_check(d, nm + '_live', P.abstract(), liveness=True)))
         return res
